@@ -83,3 +83,33 @@ def stable_label(cx, fn):
         return (root or fn)['path']
     tr = (im.get('trait') or '').split('::')[-1]
     return '<%s%s>::%s' % (impl_tag(cx, im), (' as ' + tr) if tr else '', name)
+
+
+# ----------------------------------------------------------------------
+# field roles inferred from types (so that renaming a field does not disturb a rule)
+def adt_fields(cx, adt_path):
+    a = cx.facts.adts.get(adt_path)
+    if a is None:
+        return []
+    return [(f['n'], f['t']) for v in a['variants'] for f in v['fields']]
+
+
+def field_where(cx, adt_path, pred, what, unique=True):
+    """name of the field of `adt_path` whose type satisfies pred(type dict, type id); Incomplete when not (uniquely) found"""
+    from .core import Incomplete
+    F = cx.facts
+    hits = [n for n, t in adt_fields(cx, adt_path) if pred(F.ty(t), t)]
+    if not hits or (unique and len(hits) != 1):
+        raise Incomplete('cannot identify the %s field of %s by its type (candidates: %s)' % (what, adt_path, hits))
+    return hits[0] if unique else hits
+
+
+def is_cell_of(F, t, inner_pred):
+    """MutRc|MutArc<X> (or an AssociatedRefPtr::Rc<X> alias) with inner_pred(X type dict)"""
+    if t['k'] == 'adt' and t['p'] in ('rc::MutRc', 'rc::MutArc') and t['a']:
+        return inner_pred(F.ty(t['a'][0]))
+    return False
+
+
+def is_option_of(F, t, inner_pred=lambda x: True):
+    return t['k'] == 'adt' and t['p'] == 'std::option::Option' and t['a'] and inner_pred(F.ty(t['a'][0]))
